@@ -183,6 +183,13 @@ impl From<&str> for Nested {
     }
 }
 
+/// Custom parse error for enums that declare `parse_err_ty` / `parse_err_fn`.
+#[derive(Debug, Clone, PartialEq)]
+pub struct MyErr(pub String);
+pub fn my_err(s: &str) -> MyErr {
+    MyErr(s.to_string())
+}
+
 /// Type-erased inner value.
 #[derive(Clone, Debug, PartialEq)]
 pub enum InnerVal {
@@ -274,6 +281,9 @@ pub struct Case {
     pub claims: &'static [(&'static str, bool)],
     /// spellings of disabled variants (must be captured like any other unclaimed input)
     pub disabled_spellings: &'static [&'static str],
+    /// further strings worth trying as inputs: the default variant's own spellings (its identifier as
+    /// converted by serialize_all, its serialize/to_string literals) - unclaimed, so they must be captured
+    pub extra_inputs: &'static [&'static str],
     pub has_from_str: bool,
     pub has_as_ref: bool,
     pub has_into_static: bool,
@@ -818,7 +828,7 @@ fn one_edit(rng: &mut Rng, s: &str) -> String {
 }
 
 pub fn gen_input(rng: &mut Rng, case: &Case) -> String {
-    let spellings: Vec<&str> = case.claims.iter().map(|(s, _)| *s).chain(case.disabled_spellings.iter().copied()).chain(case.variants.iter().map(|v| v.ident)).collect();
+    let spellings: Vec<&str> = case.claims.iter().map(|(s, _)| *s).chain(case.disabled_spellings.iter().copied()).chain(case.extra_inputs.iter().copied()).chain(case.variants.iter().map(|v| v.ident)).collect();
     let base = |rng: &mut Rng| -> String {
         if spellings.is_empty() {
             pick_str(rng.below(20)).to_string()
